@@ -33,6 +33,7 @@ func init() {
 			{ID: "C03.R12", Floor: 6, Run: c09r2, Text: "lock typestate (= C09.R2): the lock bit a query constructor receives is the one the query releases"},
 			{ID: "C03.R13", Floor: 1, Run: deactivateOnlyOnRetire, Text: "a table is marked inactive only by the retiring method (which also removes it from the target map and pushes its slot to the free list): an inactive table that still receives entities is skipped by every selector"},
 			{ID: "C03.R14", Floor: 4, Run: c07r2, Text: "cache list ⇄ position bookkeeping (= C07.R2): the position recorded for a table is read after the table was appended"},
+			{ID: "C03.R15", Floor: 1, Run: relationAssertUnwrapped, Text: "relation filters are looked at unwrapped: a function that tests its Filter parameter for *RelationFilter has handled the *CachedFilter wrapper first, on a branch that never reaches the relation test"},
 		},
 	})
 }
